@@ -587,6 +587,7 @@ struct BoundarySpace {
          add({"crlf", "trunc " + std::to_string(e.len / 2)}); add({"trunc 5"}); add({"trunc 6"}); add({"trunc 7"});
          for (long target : {255L, 256L, 257L, 511L, 512L, 513L, 1023L, 1024L, 1025L, 4095L, 4096L, 4097L, 8191L, 8192L, 8193L, 65535L, 65536L})
             if ((size_t)target > e.len) add({"pad " + std::to_string((size_t)target - e.len)}); else add({"trunc " + std::to_string(target)});
+         for (long n : {100L, 3000L}) for (long nm = 0; nm < 5; ++nm) add({"manyscales " + std::to_string(n) + " " + std::to_string(nm)});
          for (long line : {0L, 1L, 2L, 5L, 12L, 30L, 60L}) for (long n : {1000L, 20000L}) add({"bulk " + std::to_string(line) + " " + std::to_string(n)});
          for (long target : {4096L, 8192L, 65536L}) if ((size_t)target > 2 * e.len) { add({"crlf", "pad " + std::to_string((size_t)target - e.len - 100), "trunc " + std::to_string(target)}); }
       }
@@ -617,6 +618,42 @@ struct BoundarySpace {
 };
 BoundarySpace g_boundary;
 
+/// presence/absence of blocks: every block of every shipped file removed / reduced to its definition line / reduced to
+/// its last entry, and every PAIR of blocks of input/example.* removed together
+struct BlockSpace {
+   struct Seg { size_t file, nblocks; bool pairs; size_t n; };
+   std::vector<Seg> segs; size_t total = 0;
+   void build(bool quick)
+   {
+      for (size_t f = 0; f < g_corpus.files.size(); ++f) {
+         const auto& cf = g_corpus.files[f];
+         const bool ex = cf.rel.find("/input/example.") != std::string::npos;
+         if (quick && !ex && (f % 4) != 0) continue; // quick tier: the examples and every fourth test point
+         size_t nb = 0;
+         for (size_t b : line_starts(cf.bytes)) { auto tk = tokens_of(cf.bytes, b, line_end(cf.bytes, b)); if (tk.size() >= 2) { const std::string first = cf.bytes.substr(tk[0].first, tk[0].second - tk[0].first); if (ieq(first, "block") || ieq(first, "decay")) ++nb; } }
+         Seg s{f, nb, ex, 0};
+         s.n = 3 * nb + (ex ? nb * (nb - 1) / 2 : 0);
+         total += s.n; segs.push_back(s);
+      }
+   }
+   std::vector<std::string> plan(size_t idx) const
+   {
+      for (auto& s : segs) {
+         if (idx < s.n) {
+            const std::string base = "base corpus " + g_corpus.files[s.file].rel;
+            if (idx < 3 * s.nblocks) { static const char* const ops3[] = {"dropblock ", "emptyblock ", "lastentryonly "}; return {base, "src path", ops3[idx % 3] + std::to_string(idx / 3)}; }
+            idx -= 3 * s.nblocks;
+            size_t i = 0; while (idx >= s.nblocks - 1 - i) { idx -= s.nblocks - 1 - i; ++i; }
+            const size_t j = i + 1 + idx;
+            return {base, "src path", "dropblock " + std::to_string(j), "dropblock " + std::to_string(i)}; // higher index first: indices stay valid
+         }
+         idx -= s.n;
+      }
+      return {};
+   }
+};
+BlockSpace g_blocks, g_blocksq;
+
 std::vector<std::string> plan_of(const std::string& kind, uint64_t seed, uint64_t idx, std::string* mode)
 {
    if (kind == "RUNS") return gen_plan(g_corpus, sim::run_seed(seed, ENGINE_ID, idx), mode);
@@ -634,6 +671,8 @@ std::vector<std::string> plan_of(const std::string& kind, uint64_t seed, uint64_
    if (kind == "SCALE") return g_scale.plan(idx);
    if (kind == "SCALEQ") return g_scaleq.plan(idx);
    if (kind == "BOUNDARY") return g_boundary.plan(idx);
+   if (kind == "BLOCKS") return g_blocks.plan(idx);
+   if (kind == "BLOCKSQ") return g_blocksq.plan(idx);
    if (kind == "EDGE") return g_boundary.plan(g_boundary.first_edge() + idx);
    if (kind == "CORPUS") { if (idx < 2 * g_corpus.files.size()) return {"base corpus " + g_corpus.files[idx / 2].rel, std::string("src ") + ((idx & 1) ? "path" : "stdin")}; }
    return {};
@@ -650,7 +689,7 @@ int main(int argc, char** argv)
    g_fsdir = argv[3];
    mkdir(g_fsdir.c_str(), 0755);
    if (g_corpus.files.empty()) { std::printf("NOTE empty corpus\n"); }
-   g_prefix.build(false); g_prefixq.build(true); g_token.build(false); g_tokenq.build(true); g_config.build(false); g_configq.build(true); g_arglen.build(); g_cmdline.build(); g_envspace.build(); g_boundary.build(); g_scale.build(false); g_scaleq.build(true);
+   g_prefix.build(false); g_prefixq.build(true); g_token.build(false); g_tokenq.build(true); g_config.build(false); g_configq.build(true); g_arglen.build(); g_cmdline.build(); g_envspace.build(); g_boundary.build(); g_blocks.build(false); g_blocksq.build(true); g_scale.build(false); g_scaleq.build(true);
 
    // calibrate the logical step budget on the intact corpus of the current tree
    // (in a forked child: the worker itself must not have executed the program before its first run, so that a plan
@@ -685,7 +724,7 @@ int main(int argc, char** argv)
    while (sim::read_line(line)) {
       const auto t = sim::split(line);
       if (t.empty()) continue;
-      if (t[0] == "RUNS" || t[0] == "LIGHT" || t[0] == "PREFIX" || t[0] == "PREFIXQ" || t[0] == "TOKEN" || t[0] == "TOKENQ" || t[0] == "CONFIG" || t[0] == "CONFIGQ" || t[0] == "ARGLEN" || t[0] == "CMDLINE" || t[0] == "ENV" || t[0] == "BOUNDARY" || t[0] == "SCALE" || t[0] == "SCALEQ" || t[0] == "CORPUS") {
+      if (t[0] == "RUNS" || t[0] == "LIGHT" || t[0] == "PREFIX" || t[0] == "PREFIXQ" || t[0] == "TOKEN" || t[0] == "TOKENQ" || t[0] == "CONFIG" || t[0] == "CONFIGQ" || t[0] == "ARGLEN" || t[0] == "BLOCKS" || t[0] == "BLOCKSQ" || t[0] == "CMDLINE" || t[0] == "ENV" || t[0] == "BOUNDARY" || t[0] == "SCALE" || t[0] == "SCALEQ" || t[0] == "CORPUS") {
          const bool rnd = t[0] == "RUNS" || t[0] == "LIGHT";
          if (t.size() < (rnd ? 4u : 3u)) { std::printf("NOTE malformed command: %s\nDONE\n", line.c_str()); continue; }
          const uint64_t seed = rnd ? std::strtoull(t[1].c_str(), nullptr, 0) : 0;
@@ -711,7 +750,7 @@ int main(int argc, char** argv)
          g_hash_all = t.size() > 1 && t[1] != "0";
          std::printf("DONE\n");
       } else if (t[0] == "COUNT") {
-         std::printf("COUNT CONFIG %zu\nCOUNT CONFIGQ %zu\nCOUNT ARGLEN %zu\nCOUNT BOUNDARY %zu\nCOUNT EDGE %zu\nCOUNT SCALE %zu\nCOUNT SCALEQ %zu\nCOUNT CMDLINE %zu\nCOUNT ENV %zu\n", g_config.total, g_configq.total, g_arglen.total, g_boundary.total, g_boundary.edge.size(), g_scale.total, g_scaleq.total, g_cmdline.total, g_envspace.total);
+         std::printf("COUNT CONFIG %zu\nCOUNT CONFIGQ %zu\nCOUNT ARGLEN %zu\nCOUNT BOUNDARY %zu\nCOUNT EDGE %zu\nCOUNT SCALE %zu\nCOUNT SCALEQ %zu\nCOUNT CMDLINE %zu\nCOUNT ENV %zu\nCOUNT BLOCKS %zu\nCOUNT BLOCKSQ %zu\n", g_config.total, g_configq.total, g_arglen.total, g_boundary.total, g_boundary.edge.size(), g_scale.total, g_scaleq.total, g_cmdline.total, g_envspace.total, g_blocks.total, g_blocksq.total);
          std::printf("COUNT PREFIX %zu\nCOUNT PREFIXQ %zu\nCOUNT TOKEN %zu\nCOUNT TOKENQ %zu\nCOUNT CORPUS %zu\nBUDGET %" PRIu64 " %" PRIu64 "\nDONE\n",
                      g_prefix.total, g_prefixq.total, g_token.total, g_tokenq.total, 2 * g_corpus.files.size(), g_budget, max_steps);
       } else if (t[0] == "DUMP" && t.size() >= 4) {
